@@ -238,6 +238,11 @@ def merge_reports(reports):
             if n not in m["notes"]:
                 m["notes"].append(n)
         for k, v in (r.get("extra") or {}).items():
+            if k.startswith("cmp:"):
+                m["extra"].setdefault(k, [])
+                if v not in m["extra"][k]:
+                    m["extra"][k].append(v)
+                continue
             if isinstance(v, (int, float)) and isinstance(m["extra"].get(k, 0), (int, float)):
                 m["extra"][k] = m["extra"].get(k, 0) + v
             else:
@@ -251,6 +256,10 @@ def finish(prop, tier, level, merged, t0, rule, assumptions, trusted_base=None, 
     Returns the process exit code."""
     if os.environ.get("VERIF_DUMP"):
         json.dump(merged, open(os.environ["VERIF_DUMP"], "w"), indent=1)
+    for k, vals in merged["extra"].items():
+        if k.startswith("cmp:") and len(vals) > 1:
+            merged["failures"].append({"sig": "cross-process %s differs" % k[4:],
+                                       "detail": "%d distinct values over the shard processes: %s" % (len(vals), vals[:4]), "replay": None})
     known = load_known(prop)
     evdir = os.path.join(VERIF, "evidence")
     rpdir = os.path.join(evdir, "replay")
